@@ -1,10 +1,10 @@
 CONSTANTS
   Threads = {1, 2}
-  Routes = {"/a", "/x"}
+  Routes = {"/a"}
   Hosts = {0, 1}
   Files = {"f"}
   FileOf <- MCFileOf
-  MCSizes = {1, 2, 3}
+  MCSizes = {1, 3}
   MCIds = {1, 2}
   Payloads <- MCPayloads
   Limit = 2
@@ -12,10 +12,11 @@ CONSTANTS
   Ticks = {1}
   Dev = {}
   RewriteInFlight = FALSE
-  MaxWrites = 3
+  MaxWrites = 2
   MaxClock = 2
 SPECIFICATION SSpec
 CONSTRAINT ClockBound
+VIEW SView
 INVARIANTS Inv_Size Inv_TotalExact Inv_TotalBound Inv_Coherent Inv_Unique Inv_MissServesFile Inv_Fresh Inv_CachedWasFile
 PROPERTIES Act_ImmediatelyRetrievable Act_HandlerCoherent
 CHECK_DEADLOCK FALSE
